@@ -528,15 +528,13 @@ package keeper
 
 // depositPre: everything checked before funds move; depositLate: the checks made after the burn (C14: they must
 // still turn into an error). `caller` is empty for the plain variant.
-//@ macro depositPre(s, from, amount, dst, mintRecipient, burnToken) := validBech32(from) && !amount.isnil && amount.v > 0 && mintRecipient != nil && mintRecipient != zeros(32) && s.messengers.has[dst] && foldEq(mintingDenom(), burnToken) && !bmPausedIn(s) && !(s.burnLimits.has[lower(burnToken)] && amount.v > s.burnLimits.amt[lower(burnToken)])
+//@ macro depositPre(s, from, amount, dst, mintRecipient, burnToken) := validBech32(from) && !amount.isnil && amount.v > 0 && mintRecipient != nil && mintRecipient != zeros(32) && s.messengers.has[dst] && foldEq(mintingDenom(), burnToken) && validDenom(burnToken) && !bmPausedIn(s) && !(s.burnLimits.has[lower(burnToken)] && amount.v > s.burnLimits.amt[lower(burnToken)])
 //@ macro depositLate(s, dst, mintRecipient, caller) := len(mintRecipient) == 32 && !srPausedIn(s) && bodyFits(s, 132) && len(s.messengers.addr[dst]) == 32 && s.messengers.addr[dst] != zeros(32) && (len(caller) == 0 || (len(caller) == 32 && caller != zeros(32)))
 //@ macro burnBody(from, amount, mintRecipient, burnToken) := encBurn(0, keccak(lower(burnToken)), mintRecipient, amount, pad32(accBytes(from)))
 //@ macro depositMessage(s, from, amount, dst, mintRecipient, burnToken, caller) := encMessage(0, 4, dst, nextNonceOf(s), modulePadded(), s.messengers.addr[dst], (len(caller) == 0 ? zeros(32) : caller), burnBody(from, amount, mintRecipient, burnToken))
 
-// Stored burn limits are never nil (SetPerMessageBurnLimit's contract); validDenom is what sdk.NewCoin demands.
+// Stored burn limits are never nil (SetPerMessageBurnLimit's contract). validDenom is sdk.ValidateDenom.
 //@ func (msgServer) depositForBurn(ctx, from, amount, destinationDomain, mintRecipient, burnToken, destinationCaller) (nonce, err)
-//@ requires[C20.amount]  !amount.isnil
-//@ requires[C20.denom]   foldEq(mintingDenom(), burnToken) ==> validDenom(burnToken)
 //@ requires[rep.limits]  st.burnLimits.has[lower(burnToken)] ==> !st.burnLimits.nil[lower(burnToken)]
 //@ ensures[C08.ok C14.ok] (err == nil) <==> (depositPre(old(st), from, amount, destinationDomain, mintRecipient, burnToken) && !depFails(0) && !depFails(1) && depositLate(old(st), destinationDomain, mintRecipient, destinationCaller) && !emitErr(0) && !emitErr(1))
 //@ ensures[C12.bm]       err == nil ==> !bmPausedIn(old(st)) && !srPausedIn(old(st))
@@ -548,8 +546,6 @@ package keeper
 //@ modifies[C15.frame C11.frame C12.frame C13.frame C02.frame C07.frame C05.frame C06.frame C08.frame C14.frame] st.nextNonce
 
 //@ func (msgServer) DepositForBurn(goCtx, msg) (resp, err)
-//@ requires[C20.amount]  !msg.Amount.isnil
-//@ requires[C20.denom]   foldEq(mintingDenom(), msg.BurnToken) ==> validDenom(msg.BurnToken)
 //@ requires[rep.limits]  st.burnLimits.has[lower(msg.BurnToken)] ==> !st.burnLimits.nil[lower(msg.BurnToken)]
 //@ ensures[C08.ok C14.ok] (err == nil) <==> (depositPre(old(st), msg.From, msg.Amount, msg.DestinationDomain, msg.MintRecipient, msg.BurnToken) && !depFails(0) && !depFails(1) && depositLate(old(st), msg.DestinationDomain, msg.MintRecipient, "") && !emitErr(0) && !emitErr(1))
 //@ ensures[C12.bm]       err == nil ==> !bmPausedIn(old(st)) && !srPausedIn(old(st))
@@ -561,8 +557,6 @@ package keeper
 //@ modifies[C15.frame C11.frame C12.frame C13.frame C02.frame C07.frame] st.nextNonce
 
 //@ func (msgServer) DepositForBurnWithCaller(goCtx, msg) (resp, err)
-//@ requires[C20.amount]  !msg.Amount.isnil
-//@ requires[C20.denom]   foldEq(mintingDenom(), msg.BurnToken) ==> validDenom(msg.BurnToken)
 //@ requires[rep.limits]  st.burnLimits.has[lower(msg.BurnToken)] ==> !st.burnLimits.nil[lower(msg.BurnToken)]
 //@ ensures[C08.ok C14.ok] (err == nil) <==> (len(msg.DestinationCaller) == 32 && msg.DestinationCaller != zeros(32) && depositPre(old(st), msg.From, msg.Amount, msg.DestinationDomain, msg.MintRecipient, msg.BurnToken) && !depFails(0) && !depFails(1) && depositLate(old(st), msg.DestinationDomain, msg.MintRecipient, msg.DestinationCaller) && !emitErr(0) && !emitErr(1))
 //@ ensures[C12.bm]       err == nil ==> !bmPausedIn(old(st)) && !srPausedIn(old(st))
